@@ -25,6 +25,17 @@ CFG = {
         "Plus c13:selftest (the Lean specifications' own tests: RFC 8032 7.1 TEST 1/2/3/1024/SHA(abc), RFC 6979 A.2.5/A.2.6 k, r, s, curve "
         "constants, decoding rules) and c13:digest (P-256 messages whose SHA-256 digest is >= n, found by search: the one case where RFC 6979's "
         "bits2octets reduction matters). c13:flip is delivered as two cases per key pair that divide the signature bits between them. "
+        "Gap kinds (COVERAGE.md rows 17 / 20): c13:create (8 cases, 48 thorough: one key pair per case over the four algorithms x three origins, its "
+        "public-only and secret-JWK imports and a non-signing key; KeySign::create_signature called on Box<AnyKey> AND on the concrete "
+        "Ed25519KeyPair / K256KeyPair / P256KeyPair / P384KeyPair rebuilt from the exported bytes, for the default type, the own type "
+        "(documented and decorated spelling), the three foreign types, an unknown and an over-long type string, with and without secret; "
+        "Ed25519KeyPair::sign; SignatureType::from_str(..).signature_length() over the ~190 spelling classes of c13:type) and c13:seed "
+        "(8 cases, 64 thorough, two (four) algorithms each so that all 16 occur: LocalKey::from_seed with the default, the empty, the "
+        "bls_keygen method and eleven unknown method strings x seeds of 0 / 1 / 5 / 31 / 32 / 33 / 64 bytes, a seed and its zero-extension, "
+        "two seeds sharing their first 32 bytes, the same seed twice, a neighbouring seed; a seeded signing key signs and verifies). "
+        "The model predicts the SECRET BYTES of every seeded key of every algorithm from the seed (Model/Seed.lean over the ChaCha20 / "
+        "SHA-256 / HKDF specifications: RandomDet keystream, BlsKeyGen, rejection loop of the NIST curves, wide reduction of the BLS scalar), "
+        "then public key and signature by the signature specifications. "
         "Compared with the model: per operation the dispatch outcome AND the values: sign -> ok + length + the signature bytes + the public "
         "key of the signing key, all recomputed in Lean from the secret key bytes by executable specifications of Ed25519 (RFC 8032) and "
         "ECDSA + RFC 6979 over P-256/P-384/secp256k1; verify -> true / false / error kind where true/false is the specification's verdict "
@@ -57,6 +68,8 @@ CFG = {
         "validation itself is C14's subject",
     ],
     "trusted_base": [
+        "lean/AskarModel/Crypto/ChaCha20.lean, Sha2.lean, Hmac.lean as used by Model/Seed.lean Std.prims (RFC 8439 / FIPS 180-4 / RFC 5869; "
+        "their own selftests run under C12 / c13:selftest), the constant blsR (order of the BLS12-381 scalar field)",
         "harness/src/c13.rs: the embedded RFC 8032 / RFC 6979 vectors, group orders, big-endian arithmetic for n-s and s+n, the rule that "
         "decides what the property demands of each operation (must verify / must be false / must not be true)",
         "lean/Driver/C13.lean: JSON protocol, mapping of import routes to model keys, the byte-level mutations (flip, trunc, extend, n-s, s+n), "
@@ -72,6 +85,11 @@ def nontrivial(rec):
     f = rec["impl"].get("feat") or {}
     rejected = f.get("verify_false", 0) + sum(v for k, v in f.items() if k.startswith("verify_err_"))
     if f.get("sign_ok", 0) >= 1 and rejected >= 1:
+        return True
+    # gap kinds: a key / signature was made AND a refusal was observed
+    if f.get("seed_ok", 0) >= 1 and any(k.startswith("seed_err_") for k in f):
+        return True
+    if f.get("create_ok", 0) >= 1 and any(k.startswith("create_err_") for k in f):
         return True
     kinds = [k for k in f if k.startswith("sign_err_") or k.startswith("verify_err_")]
     return len(set(k.split("_")[-1] for k in kinds)) >= 2
